@@ -37,6 +37,7 @@ type Thread struct {
 	until  int64 // wake time for sleeping / deadline for blocked (-1: none)
 	exited chan struct{}
 	yield  bool // sleeping as a spin-loop yield
+	spins  uint // consecutive spin yields (back-off)
 }
 
 // ChoicePoint is one recorded scheduling decision with more than one option.
@@ -243,6 +244,14 @@ func Point() {
 	schedule()
 }
 
+// Progress tells the scheduler that the current thread got something done
+// (acquired a lock, completed I/O, changed an atomic): its spin back-off is reset.
+func Progress() {
+	if On && cur != nil {
+		cur.spins = 0
+	}
+}
+
 // Observe runs the step monitor without a scheduling point (called by unlock
 // operations before the lock is released, so that a monitor sees the state a
 // critical section produced while its lock is still held).
@@ -313,6 +322,7 @@ func Sleep(ns int64) {
 	if ns < 0 {
 		ns = 0
 	}
+	cur.spins = 0
 	cur.st = sleeping
 	cur.until = Clock + ns
 	schedule()
@@ -344,8 +354,12 @@ func Yield() {
 		return
 	}
 	Points++
+	// back off: a spinner that keeps failing waits longer (1 ns .. ~1 ms), so a
+	// 50 ms spin budget is a few dozen iterations instead of 50 million
+	d := int64(1) << min(cur.spins, 20)
+	cur.spins++
 	cur.st = sleeping
-	cur.until = Clock + 1
+	cur.until = Clock + d
 	cur.yield = true
 	schedule()
 }
